@@ -120,6 +120,9 @@ func (s *PStmt) Line() string {
 	case "org":
 		return fmt.Sprintf("\tORG 0x%x", s.N)
 	case "bits":
+		if s.Text != "" {
+			return "[BITS " + s.Text + "]" // another spelling of the same number (hexadecimal, an EQU name)
+		}
 		return fmt.Sprintf("[BITS %d]", s.N)
 	case "global":
 		return "\tGLOBAL " + s.Text
